@@ -44,6 +44,12 @@ CLAIMS = {
     "C11": dict(tech=TECH, ref="DESIGN.md section 3 C11 and section 7",
                 text="symbolic input graphs (every out-index shape with <=3 nodes and <=3 edges in the quick tier, 4 edges in the thorough tier; destinations, edge data and lookup keys symbolic; self loops, parallel edges, isolated and trailing edge-less nodes included) are built through the real FileGraph and handed to the real graph constructors on one modelled thread: LC_CSR_Graph (three construction paths), LC_CSR_CSC_Graph, LC_InOut_Graph, LC_Linear_Graph, LC_InlineEdge_Graph enumerate exactly the input in file order; transpose, sortAllEdgesByDst, sortEdgesByEdgeData, findEdge, findEdgeSortedByDst (incl. no access outside [0,numEdges)), local node ranges.",
                 note="The out-index is enumerated (56 shapes), not symbolic; do_all/on_each run their body once on thread 0 (Loops.h cut); LargeArray/mmap are zero-filled malloc blocks (page size scaled to 128 bytes for the layouts that round). Multi-thread construction, LC_Morph_Graph, LC_Adaptor_Graph, LC_CSR_Hypergraph, in-edge sorting are outside."),
+    "C16": dict(tech=TECH, ref="DESIGN.md section 3 C16 and section 7",
+                text="with the guarded hook shrinking the serial cut-off and block size to 1-3: dual_partition (two ranges of <=3 symbolic booleans), partition_helper_state step contracts, partition_helper for one worker (and two workers run in sequence) followed by the tail of partition() on arrays of <=7 symbolic predicate bits (valid partition point, permutation, no access outside the range), one sort_helper step with an arbitrary pivot, count_if / accumulate / map_reduce / find_if / partial_sum (incl. empty trailing blocks) / destroy end to end on <=6 elements with 1..3 modelled threads.",
+                note="Hook: GALOIS_PSTL_CUTOFF / GALOIS_PSTL_BLOCK (MANIFEST.hooks). End-to-end sort() (std::sort over solver-dependent bounds did not finish), interleaved partition helpers, and the real ForEach/do_all executors (harness stand-ins, listed in the evidence) are outside."),
+    "C03": dict(tech=TECH_CONC, ref="DESIGN.md section 3 C03 and section 7",
+                text="sequential step contracts of the stealing do_all ThreadContext (getWork / stealWork HALF and FULL / assignWork / transferWork from an arbitrary consistent pre-state, chunk size symbolic 1..4096, counting and pointer iterators): returned piece and remainder are disjoint and cover the old range; the real ThreadPool::cascade() wake-up tree for every num<=16 wakes each thread 1..num-1 exactly once with wbegin<=wend; (thorough tier) the fast-mode fork/join protocol with T=3 over two regions as a step machine.",
+                note="The per-thread pieces of Range.h are C13. The interleaved stealing executor, the mutex/condition-variable mode of the pool, runDedicated and on_each over the real pool are outside; the fork/join obligation is thorough-tier only (formula size)."),
     "C05": dict(tech=TECH_CONC, ref="DESIGN.md section 3 C05 and section 7",
                 text="the real wait() bodies of CountingBarrier, MCSBarrier, DisseminationBarrier (state built by the real constructors/reinit) run as step machines under a solver-chosen schedule: no thread returns from its k-th wait before every participant entered it, every thread returns (deadlock probe + step-bound assertion), reuse over 2-3 phases, reinit to a different participant count between regions, T=1.",
                 note="T=2 in the quick tier, T=3 and the plain-accesses-visible variant in the thorough tier; SC values only. TopoBarrier, SimpleBarrier (mutex/condvar) and PthreadBarrier are not yet encoded."),
@@ -93,8 +99,8 @@ def main():
             "guard": "GALOIS_VERIF",
             "enable": "harness translation units are compiled with -DGALOIS_VERIF against the real headers/sources of /repo's working tree (no rebuild of /repo/_build is needed by the checks)",
             "baseline_off_cmd": "cmake --build /repo/_build -j16 -- -k 0; ctest --test-dir /repo/_build -j8 --timeout 900",
-            "source_commits": [],
-            "add_only": True,
+            "source_commits": ["05b73d7 verif hook: make the serial cut-off and block size of ParallelSTL overridable under GALOIS_VERIF"],
+            "add_only": False,
         },
         "engines": [{"name": "ir2c+cbmc", "path": "tools/ir2c, lib/vfdriver.py, rt/", "serves_properties": [c["property_id"] for c in checks],
                      "kind_free_text": "LLVM-IR-to-C translator + CBMC bounded model checker + IR-to-SMT-LIB(Int) emitter; own thread sequentialisation"}],
